@@ -628,9 +628,8 @@ class OP_CHECK_TEMPLATE_VERIFY_c:
 @contract('functions.OP_CHECK_MULTISIG')
 class OP_CHECK_MULTISIG_c:
     ensures = ensures_clean
-    """common op contract for all (m, n) ASSUMED for now (nested loops mutating the list they iterate);
-    the exact verdict for m <= n <= 5 is the C03 lemma"""
-    trusted = True
+    """common op contract (limits, frames, RETURN protocol) for ALL (m, n) by loop invariants; the exact
+    verdict for small (m, n) is the C03 lemma (props/lemmas_multisig.py)"""
     extends = OPCK
     modifies = ('tape.pointer', 'stack.deque', 'cache')
 
